@@ -220,6 +220,22 @@ fn tensor<B: Backend>(shape: &[usize], f: impl Fn(usize) -> f64) -> Result<Tenso
     catch(|| Tensor::<B, 3>::from_data(TensorData::new(data, sh), &B::Device::default()))
 }
 
+/// "full": a device that can be opened for writing and refuses every byte (ENOSPC) -- the error surfaces only when the
+/// writer's buffer is flushed, i.e. possibly only at the very end of the save.
+fn target_path(c: &Value, base: &str, ext: &str) -> String {
+    match c["path"].as_str().unwrap() {
+        "isdir" => base.to_string(),
+        "full" => "/dev/full".to_string(),
+        _ => format!("{base}.{ext}"),
+    }
+}
+fn clean(path: &str) -> std::io::Result<()> {
+    if path.starts_with("/dev/") {
+        return Ok(()); // never unlink a device node
+    }
+    std::fs::remove_file(path)
+}
+
 fn run_case(c: &Value, dir: &str, acc: &mut Acc) {
     let shape: Vec<usize> = c["shape"].as_array().unwrap().iter().map(|x| x.as_u64().unwrap() as usize).collect();
     let ep = c["ep"].as_str().unwrap();
@@ -231,10 +247,10 @@ fn run_case(c: &Value, dir: &str, acc: &mut Acc) {
     let strerr = |r: Result<(), Box<dyn std::error::Error>>| r.map_err(|e| e.to_string());
     macro_rules! array_ep {
         ($t:ty, $save:ident, $reader:expr) => {{
-            let path = if c["path"] == "isdir" { base.clone() } else { format!("{base}.{}", $reader) };
-            let _ = std::fs::remove_file(&path);
+            let path = target_path(c, &base, $reader);
+            let _ = clean(&path);
             for (li, lname) in LAYOUTS.iter().enumerate() {
-                let _ = std::fs::remove_file(&path);
+                let _ = clean(&path);
                 let a = arr_layout::<$t>(&shape, li);
                 if !same_logical::<$t>(&a, &shape) {
                     crate::util::tool_error(&format!("c17: layout {lname} does not hold the same logical array"));
@@ -263,8 +279,8 @@ fn run_case(c: &Value, dir: &str, acc: &mut Acc) {
             array_ep!(i32, save_parquet, "parquet");
         }
         "csv_tensor" => {
-            let path = if c["path"] == "isdir" { base.clone() } else { format!("{base}.csv") };
-            let _ = std::fs::remove_file(&path);
+            let path = target_path(c, &base, "csv");
+            let _ = clean(&path);
             match tensor::<NdArray<f32>>(&shape, |k| f32::of(k) as f64) {
                 Err(e) => acc.skipped.push(format!("csv_tensor {:?}: tensor not constructible: {}", shape, e.chars().take(60).collect::<String>())),
                 Ok(t) => {
@@ -272,7 +288,7 @@ fn run_case(c: &Value, dir: &str, acc: &mut Acc) {
                     verify::<f32>(c, "NdArray<f32>", r, &path, "csv", acc);
                 }
             }
-            let _ = std::fs::remove_file(&path);
+            let _ = clean(&path);
             if let Ok(t) = tensor::<NdArray<f64>>(&shape, |k| f64::of(k)) {
                 // f64 backend: the function converts to f32; it may refuse (Err) but must not panic or mislabel
                 let r = catch(|| strerr(save_csv_tensor(t, &path)));
@@ -285,8 +301,8 @@ fn run_case(c: &Value, dir: &str, acc: &mut Acc) {
             }
         }
         "parquet_tensor" => {
-            let path = if c["path"] == "isdir" { base.clone() } else { format!("{base}.parquet") };
-            let _ = std::fs::remove_file(&path);
+            let path = target_path(c, &base, "parquet");
+            let _ = clean(&path);
             match tensor::<NdArray<f32>>(&shape, |k| f32::of(k) as f64) {
                 Err(e) => acc.skipped.push(format!("parquet_tensor {:?}: tensor not constructible: {}", shape, e.chars().take(60).collect::<String>())),
                 Ok(t) => {
@@ -294,7 +310,7 @@ fn run_case(c: &Value, dir: &str, acc: &mut Acc) {
                     verify::<f32>(c, "NdArray<f32>/f32", r, &path, "parquet", acc);
                 }
             }
-            let _ = std::fs::remove_file(&path);
+            let _ = clean(&path);
             if let Ok(t) = tensor::<NdArray<f64>>(&shape, |k| f64::of(k)) {
                 let r = catch(|| strerr(save_parquet_tensor::<NdArray<f64>, _, f64>(&t, &path)));
                 verify::<f64>(c, "NdArray<f64>/f64", r, &path, "parquet", acc);
